@@ -397,7 +397,11 @@ func (c *Ctx) ErrChecked(rule, key string, fn *ssa.Function, calls []ssa.Instruc
 				return false
 			}
 			k := ErrKindsFromCut(op, e, call, cut)
-			return k["nil"] || k["unknown"]
+			if !(k["nil"] || k["unknown"]) {
+				return false
+			}
+			// the returned variable may still be known non-nil at this return (it sits behind `x != nil`)
+			return ReturnMaySucceed(fn, r)
 		}, SearchOpt{Cut: cut})
 		if hit != nil {
 			c.Ob(rule, k, false, InstrPos(call), fmt.Sprintf("a nil-error return at %s is reachable on the path where this error is non-nil (%s); path %s", c.P.Pos(InstrPos(hit)), what, DescribePath(c.P, fn, path)))
